@@ -198,6 +198,40 @@ def check_unprintable(form, kind):
     return out
 
 
+def check_callable_values(form):
+    """members whose values are callable (a table from names to command classes or functions).  The name list of such members is
+    outside this check's alphabet (see DESIGN), but lookup and removal are not: a supplied name reads back as its value, remove()
+    takes it away like `del d[name]`, a second remove() is a KeyError, and the other members are untouched"""
+    from pyscsi.utils.enum import Enum
+
+    class Inq(object):
+        pass
+    m = {"INQUIRY": Inq, "LENGTH": len, "B": 2}
+    e = Enum(dict(m)) if form == "dict" else Enum(**m)
+    out = []
+    for name, v in m.items():
+        if getattr(e, name, None) is not v:
+            out.append(("callable/value", "Enum with %s = %r: reads back as %r" % (name, v, getattr(e, name, None))))
+    for name in ("INQUIRY", "LENGTH"):
+        try:
+            e.remove(name)
+        except Exception as ex:   # noqa: BLE001
+            out.append(("callable/remove_refused", "remove(%r) of a supplied name whose value is callable raised %s: %s" % (name, type(ex).__name__, ex)))
+            continue
+        if hasattr(e, name):
+            out.append(("callable/remove_ineffective", "after remove(%r) the name still reads as %r" % (name, getattr(e, name))))
+        try:
+            e.remove(name)
+            out.append(("callable/remove_missing_accepted", "a second remove(%r) was accepted" % name))
+        except KeyError:
+            pass
+        except Exception as ex:   # noqa: BLE001
+            out.append(("callable/remove_wrong_error", "a second remove(%r) raised %s" % (name, type(ex).__name__)))
+    if getattr(e, "B", None) != 2 or e[2] != "B":
+        out.append(("callable/other_member", "the member B = 2 changed: %r / %r" % (getattr(e, "B", None), e[2])))
+    return out
+
+
 def check_keys_alias(shape):
     """what `keys` hands out belongs to the caller: sorting, emptying or extending it, or walking it while adding / removing, leaves
     the enumeration agreeing with the dict that underwent the same operations"""
@@ -434,6 +468,8 @@ def run_case(case):
         return check_keys_alias(case[1])
     if case[0] == "unprintable":
         return check_unprintable(case[1], case[2])
+    if case[0] == "callable":
+        return check_callable_values(case[1])
     if case[0] == "opcode_dict":
         return check_opcode_dict(case[1], case[2])
     idx, hist, nv = case
@@ -478,6 +514,15 @@ def run_partition(part, tier, seed):
             acc.case(case, nontrivial=True, key=tuple(case))
             v = check_keys_alias(shape)
             acc.transitions += 4
+            acc.traces += 1
+            for k, w in v:
+                acc.violation(k, w, case)
+            acc.outcome((tuple(case), tuple(k for k, _ in v)))
+        for form in ("dict", "kw"):
+            case = ["callable", form]
+            acc.case(case, nontrivial=True, key=tuple(case))
+            v = check_callable_values(form)
+            acc.transitions += 6
             acc.traces += 1
             for k, w in v:
                 acc.violation(k, w, case)
